@@ -1,4 +1,5 @@
 import GdslModel.Lemmas.Order
+import GdslModel.Lemmas.Extra
 /-!
 # C10 — preorder and postorder are depth-first discovery and finishing orders
 `A = accAdj adj acc`; `post = false` is `preorder()` / `order().pre()`, `post = true` is
@@ -55,5 +56,30 @@ example : (orderNodes (K := Nat) (E := Nat) (fun u => if u = 0 then [(1, 0), (2,
     (fun _ _ _ => true) true 0 6).map (·.1) = some [3, 1, 2, 0] := by simp [orderNodes, orderEdges, postEdges]
 example : (orderNodes (K := Nat) (E := Nat) (fun u => if u = 0 then [(1, 0), (2, 0)] else if u = 1 then [(3, 0)] else [])
     (fun _ _ _ => true) false 0 6).map (·.1) = some [0, 1, 3, 2] := by simp [orderNodes, orderEdges, preEdges]
+
+/-- preorder and postorder on a graph built by a history never run out of fuel when given
+    `number of distinct keys + 1`: plain, transposed and undirected, any filter -/
+theorem Order.history_fuel (ops : List (Op K E)) (acc : K → K → E → Bool) (post : Bool) (root : K)
+    (hr : root ∈ opKeys ops) :
+    (orderEdges (outAdj (Di.run ops)) acc post root ((opKeys ops).eraseDups.length + 1)).isSome = true ∧
+    (orderEdges (inAdj (Di.run ops)) acc post root ((opKeys ops).eraseDups.length + 1)).isSome = true ∧
+    (orderEdges (unAdj (Un.run ops)) acc post root ((opKeys ops).eraseDups.length + 1)).isSome = true := by
+  have hc := history_closed_eraseDups ops acc
+  have hr' := (mem_eraseDups_opKeys ops root).mpr hr
+  exact ⟨Order.fuel_enough _ acc post root _ _ hc.1 hr' (Nat.lt_succ_self _),
+    Order.fuel_enough _ acc post root _ _ hc.2.1 hr' (Nat.lt_succ_self _),
+    Order.fuel_enough _ acc post root _ _ hc.2.2 hr' (Nat.lt_succ_self _)⟩
+
+/-- the form the driver uses: any node table containing the history's keys and the root, any fuel above its length -/
+theorem Order.history_fuel_of_nodes (ops : List (Op K E)) (acc : K → K → E → Bool) (post : Bool) (root : K)
+    (nodes : List K) (fuel : Nat)
+    (hk : ∀ k ∈ opKeys ops, k ∈ nodes) (hr : root ∈ nodes) (hf : nodes.length < fuel) :
+    (orderEdges (outAdj (Di.run ops)) acc post root fuel).isSome = true ∧
+    (orderEdges (inAdj (Di.run ops)) acc post root fuel).isSome = true ∧
+    (orderEdges (unAdj (Un.run ops)) acc post root fuel).isSome = true := by
+  have hc := history_closed ops acc nodes hk
+  exact ⟨Order.fuel_enough _ acc post root _ _ hc.1 hr hf,
+    Order.fuel_enough _ acc post root _ _ hc.2.1 hr hf,
+    Order.fuel_enough _ acc post root _ _ hc.2.2 hr hf⟩
 
 end G
